@@ -203,6 +203,44 @@ def run_shard(spec, acc):
                 if o_ != base_out:
                     acc.violation("same-values-other-message-shape-encodes-differently", f"{d.id}: {label_}: payload {o_:x} instead of {base_out:x}",
                                   {"definition": d.id, "shape": label_, "base_payload_hex": base_payload.to_bytes(nb, "little").hex()})
+            # one message object used twice: built by hand from ids and values only, encoded, then given the values of another
+            # reading IN PLACE (an application that keeps one message per PGN and updates it) and encoded again. What is
+            # sent the second time is what a new message with those values encodes to - the first encoding left nothing
+            # behind in the object that could outvote the assignment
+            p2_ = dbx.pack(d, gen.base_raws(d, rng, dbx))
+            if dbx.select(d.pgn, p2_) is d and p2_ != base_payload:
+                try:
+                    base2 = dec.decode_basic_string(wire.plain_line(3, d.pgn, 5, 255, p2_.to_bytes(nb, "little")), already_combined=True)
+                except Exception:  # noqa: BLE001
+                    base2 = None
+                if base2 is not None and [x.id for x in base2.fields] == [x.id for x in base.fields]:
+                    def enc_out(m__):
+                        try:
+                            return ("ok", (enc.encode_actisense(m__).split() + [""])[2])
+                        except Exception as e__:  # noqa: BLE001
+                            return ("exc", type(e__).__name__)
+                    for with_raw in (False, True):
+                        def hand(src_):
+                            return NMEA2000Message(PGN=src_.PGN, id=src_.id, priority=3, source=5, destination=255,
+                                                   fields=[NMEA2000Field(id=x.id, value=x.value, raw_value=(x.raw_value if with_raw else None)) for x in src_.fields])
+                        kept_ = hand(base)
+                        first_ = enc_out(kept_)
+                        for x_, y_ in zip(kept_.fields, base2.fields):
+                            x_.value = y_.value
+                            if with_raw:
+                                x_.raw_value = y_.raw_value
+                        second_ = enc_out(kept_)
+                        fresh_ = enc_out(hand(base2))
+                        acc.count("encodes_attempted", 3)
+                        acc.count("messages_edited_in_place_and_encoded_again")
+                        if first_[0] == "ok" and second_ != fresh_:
+                            diff_ = ""
+                            if second_[0] == fresh_[0] == "ok":
+                                xo = int.from_bytes(bytes.fromhex(second_[1]), "little") ^ int.from_bytes(bytes.fromhex(fresh_[1]), "little")
+                                diff_ = ", fields: " + ", ".join(f.id for f in d.fields if f.bits is not None and f.off is not None and xo & (f.mask << f.off))[:200]
+                            acc.violation("edited-message-encodes-stale-values", f"{d.id}: a hand-built message ({'values and raw values' if with_raw else 'values only'}) encoded once, then "
+                                          f"assigned other values in place: it encodes to {second_[1][:60]}, a new message with the same values to {fresh_[1][:60]}{diff_}",
+                                          {"definition": d.id, "with_raw_values": with_raw, "first_payload_hex": base_payload.to_bytes(nb, "little").hex(), "second_payload_hex": p2_.to_bytes(nb, "little").hex()})
             # missing field
             for f in d.fields:
                 m = copy.deepcopy(base)
